@@ -1,5 +1,6 @@
 import GA.Drv.Util
 import GA.Model.Seq
+import GA.Gen.SeqBody
 namespace GA.Drv.SeqE
 open GA.Drv GA.Seq
 
@@ -53,5 +54,51 @@ def answer (kv : KV) : String :=
       | .panic => "res=panic(index_oob)"
       | .ub => "res=ub"
     | _ => "bad-op"
+
+/-- `--body` view: the same scenarios answered by interpreting the regenerated statement lists of
+    `GA.Gen.SeqBody` (by-reference `split` has no body to interpret: a pointer computation, covered by the fragment tie) -/
+def answerBody (kv : KV) : String :=
+  match kv.nat? "n" with
+  | none => "bad-op"
+  | some n =>
+    let kind := kv.getD "kind" "u64"
+    let zst := kind = "z"
+    let sh (l : List Nat) : String := showNats (if zst then l.map (fun _ => 0) else l)
+    let sh1 (l : List Nat) : Nat := if zst then 0 else l.headD 0
+    let xs := (List.range n).map (· + 1)
+    let k := kv.natD "k" 0
+    let i := kv.natD "i" 0
+    let one (o : GA.MemBody.Out) : String :=
+      match o with
+      | .ok [r] [] => s!"res=ok out=[{sh r}]"
+      | .ok _ _ => "res=ok-but-wrong-shape-or-drops"
+      | .panic _ => "res=panic"
+      | .ub => "res=ub"
+    let elemFirst (o : GA.MemBody.Out) : String :=
+      match o with
+      | .ok [e, r] [] => s!"res=ok elem={sh1 e} out=[{sh r}]"
+      | .ok _ _ => "res=ok-but-wrong-shape-or-drops"
+      | .panic d => if d == xs then "res=panic(index_oob)" else "res=panic-with-wrong-drops"
+      | .ub => "res=ub"
+    match kv.getD "op" "" with
+    | "append" => one (GA.MemBody.run GA.Gen.SeqBody.append ⟨n, k, i⟩ xs [90])
+    | "prepend" => one (GA.MemBody.run GA.Gen.SeqBody.prepend ⟨n, k, i⟩ xs [90])
+    | "concat" => one (GA.MemBody.run GA.Gen.SeqBody.concat ⟨n, k, i⟩ xs ((List.range k).map (· + 101)))
+    | "pop_back" =>
+      match GA.MemBody.run GA.Gen.SeqBody.popBack ⟨n, k, i⟩ xs [] with
+      | .ok [r, e] [] => s!"res=ok elem={sh1 e} out=[{sh r}]"
+      | .ok _ _ => "res=ok-but-wrong-shape-or-drops"
+      | .panic _ => "res=panic"
+      | .ub => "res=ub"
+    | "pop_front" => elemFirst (GA.MemBody.run GA.Gen.SeqBody.popFront ⟨n, k, i⟩ xs [])
+    | "split" =>
+      match GA.MemBody.run GA.Gen.SeqBody.split ⟨n, k, i⟩ xs [] with
+      | .ok [h, t] [] => s!"res=ok out=[{sh h}]|[{sh t}]"
+      | .ok _ _ => "res=ok-but-wrong-shape-or-drops"
+      | .panic _ => "res=panic"
+      | .ub => "res=ub"
+    | "remove" => elemFirst (GA.MemBody.run GA.Gen.SeqBody.remove ⟨n, k, i⟩ xs [])
+    | "swap_remove" => elemFirst (GA.MemBody.run GA.Gen.SeqBody.swapRemove ⟨n, k, i⟩ xs [])
+    | _ => "n/a"
 
 end GA.Drv.SeqE
